@@ -11,6 +11,7 @@ import (
 	"sync"
 	"time"
 
+	goheader "github.com/celestiaorg/go-header"
 	ds "github.com/ipfs/go-datastore"
 	ktds "github.com/ipfs/go-datastore/keytransform"
 	logging "github.com/ipfs/go-log/v2"
@@ -368,6 +369,10 @@ func (n *FullNode) Run(parentCtx context.Context) error {
 		return fmt.Errorf("error while starting data sync service: %w", err)
 	}
 
+	if n.nodeConfig.Node.Aggregator {
+		n.seedSyncStores(ctx)
+	}
+
 	// only the first error is propagated
 	// any error is an issue, so blocking is not a problem
 	errCh := make(chan error, 1)
@@ -510,6 +515,31 @@ func (n *FullNode) Run(parentCtx context.Context) error {
 	}
 
 	return multiErr // Return shutdown errors if context was okay
+}
+
+// seedSyncStores makes sure that the P2P header and data stores of a sequencer node hold the items of the
+// initial height, which full and light nodes ask for when they start. They are missing when the process died
+// after the first block was committed and before it reached the P2P stores.
+func (n *FullNode) seedSyncStores(ctx context.Context) {
+	height, err := n.Store.Height(ctx)
+	if err != nil || height < n.genesis.InitialHeight {
+		return
+	}
+	header, data, err := n.Store.GetBlockData(ctx, n.genesis.InitialHeight)
+	if err != nil {
+		n.Logger.Error("cannot load the initial block to seed the P2P stores", "error", err)
+		return
+	}
+	if _, err := n.hSyncService.Store().Head(ctx); errors.Is(err, goheader.ErrNoHead) {
+		if err := n.hSyncService.WriteToStoreAndBroadcast(ctx, header); err != nil {
+			n.Logger.Error("cannot seed the P2P header store", "error", err)
+		}
+	}
+	if _, err := n.dSyncService.Store().Head(ctx); errors.Is(err, goheader.ErrNoHead) {
+		if err := n.dSyncService.WriteToStoreAndBroadcast(ctx, data); err != nil {
+			n.Logger.Error("cannot seed the P2P data store", "error", err)
+		}
+	}
 }
 
 // GetGenesis returns entire genesis doc.
